@@ -44,6 +44,8 @@ RULE = ('Generated network specs of vlib.netgen restricted to the common feature
         'a cycling level control, a clock-time valve setting and a timed pipe through every unit as U1. Four cases in '
         'five keep every pattern period on the hydraulic grid, three in four have report step = hydraulic step, one '
         'in four keeps 2-point pump curves. WNTRSimulator runs on 80 % (quick) / all (thorough) of the cases. '
+        'One case in four with a head pump has a past: the model was simulated for one step with other pump-curve '
+        'points, the curves were re-assigned to the spec and the model reset before the engines are compared. '
         'Non-trivial = at least 3 report steps compared in every executed relation, at least one non-pipe element or '
         'tank, and relation 1 decided on all three pairs; distinct = SHA-1 of the case.')
 ASSUMPTIONS = [
